@@ -45,12 +45,6 @@ def Grammar.State : Grammar → Type
   | .orMatrix C => { m : ShapedMatrix C // m.valid orShape = true }
   | .enum ks _ => Fin ks.length
 
-/-- a one-word text -/
-def loadWord (C : Codec) (s : List Char) : Option C.α :=
-  match words s with
-  | [w] => C.parse w
-  | _ => none
-
 def Grammar.dump : (G : Grammar) → G.State → List Char
   | .status c, s => dumpStatus c.table s.1
   | .dimension, n => printNat n
@@ -115,14 +109,6 @@ example : (StatusClass.table .ph).length = 10 ∧ (StatusClass.table .box).lengt
 
 /-! ## round trips -/
 
-theorem compat_of_clean (t : Table) (p s : Nat) (h : (noClearBits t).all (fun b => !p.testBit b) = true) :
-    compat t p s = true := by
-  rw [compat_iff]
-  intro b hb hp
-  have := (List.all_eq_true.1 h) b hb
-  rw [hp] at this
-  exact Bool.noConfusion this
-
 /-- **Status flags, any table of a recognised shape, any receiver.**  Loading the dump of the flag state
 `s` into a status object whose flags are `p` yields exactly `s` (and consumes exactly the dump), provided
 `compat t p s`: no flag that `ascii_load` never clears is set in `p` but not in `s`.
@@ -144,21 +130,6 @@ theorem status_load_dump_any_receiver (t : Table) (hwf : WF t = true) (hclr : no
   simpa [words_nil] using this
 
 example : WF (boxTable false) = true ∧ noClearBits (boxTable false) = [] := by decide
-
-theorem words_word (w : Word) (h : isWordB w = true) : words w = [w] := by
-  obtain ⟨_, hall⟩ := (isWordB_iff w).1 h
-  have := wordsAux_word w [] [] hall
-  rw [List.append_nil] at this
-  unfold words
-  rw [this]
-  cases hw : w with
-  | nil => subst hw; simp [isWordB] at h
-  | cons a as => simp [wordsAux]
-
-theorem loadWord_print (C : Codec) (a : C.α) : loadWord C (C.print a) = some a := by
-  unfold loadWord
-  rw [words_word _ (C.word a)]
-  exact C.rt a
 
 /-- **C15.load_dump** (Appendix B): for every modelled grammar and every state, loading the dump gives
 back the state.  For `status c` this is `Status::ascii_load` over the table regenerated from the sources,
